@@ -56,6 +56,9 @@ func LoadKnown(dir string) (*KnownFile, error) {
 	return &k, nil
 }
 
+// Match finds a listed known finding for a violation signature.
+func (k *KnownFile) Match(prop, sig string) *KnownFinding { return k.match(prop, sig) }
+
 func (k *KnownFile) match(prop, sig string) *KnownFinding {
 	for i := range k.Known {
 		f := &k.Known[i]
@@ -94,6 +97,8 @@ func tierName(th bool) string {
 // Main runs one scenario as a check and returns the process exit code:
 // 0 held (known findings allowed), 1 violation, 2 harness trouble.
 func (sc *Scenario) Main(o Options) int {
+	sc.OutDir = o.Out
+	os.MkdirAll(filepath.Join(o.Out, "replays"), 0o755)
 	if sc.Setup != nil {
 		if err := sc.Setup(); err != nil {
 			fmt.Fprintf(os.Stderr, "setup: %v\n", err)
